@@ -27,6 +27,67 @@ var nondetCallees = []string{"time.Now", "time.Since", "time.Until", "math/rand.
 
 type detFinding struct{ Func, What string }
 
+// deepRoot follows an address or value back through field selections, element selections, loads and
+// slicing to where it comes from; derefs counts the pointer indirections passed on the way.
+func deepRoot(v ssa.Value) (root ssa.Value, derefs int) {
+	for i := 0; i < 64; i++ {
+		switch a := v.(type) {
+		case *ssa.FieldAddr:
+			v = a.X
+		case *ssa.IndexAddr:
+			v = a.X
+		case *ssa.Field:
+			v = a.X
+		case *ssa.Index:
+			v = a.X
+		case *ssa.Slice:
+			v = a.X
+		case *ssa.ChangeType:
+			v = a.X
+		case *ssa.UnOp:
+			if a.Op.String() != "*" {
+				return v, derefs
+			}
+			derefs++
+			v = a.X
+		default:
+			return v, derefs
+		}
+	}
+	return v, derefs
+}
+
+// processMemory: does the value live in memory that outlives the call - a package-level variable, or
+// something reached from the receiver through at least one pointer, map or slice (the receiver
+// itself, when passed by value, is a copy)? Returns a description or "".
+func processMemory(fn *ssa.Function, recv *ssa.Parameter, v ssa.Value, isAddr bool) string {
+	root, derefs := deepRoot(v)
+	if g, ok := root.(*ssa.Global); ok {
+		return "package-level variable " + g.String()
+	}
+	if recv == nil {
+		return ""
+	}
+	fromRecv := root == ssa.Value(recv)
+	if al, ok := root.(*ssa.Alloc); ok && !fromRecv {
+		// value receivers are spilled to a local: `t0 = local T (s); *t0 = s`
+		for _, ref := range *al.Referrers() {
+			if st, ok := ref.(*ssa.Store); ok && st.Addr == ssa.Value(al) && st.Val == ssa.Value(recv) {
+				fromRecv = true
+				derefs-- // the load from the spill slot is not an indirection of the receiver
+			}
+		}
+	}
+	if !fromRecv {
+		return ""
+	}
+	_, recvIsPtr := recv.Type().Underlying().(*types.Pointer)
+	if recvIsPtr || derefs >= 1 || !isAddr {
+		return "memory reached from its receiver"
+	}
+	return ""
+}
+
 func repoFunc(fn *ssa.Function) bool {
 	return fn != nil && fn.Pkg != nil && strings.HasPrefix(fn.Pkg.Pkg.Path(), "github.com/regen-network/regen-ledger") || fn != nil && fn.Parent() != nil && repoFunc(fn.Parent())
 }
@@ -130,6 +191,14 @@ func determinismCheck(p *Program, cfg *PropCfg, steps map[string]*ssa.Function) 
 						if _, isPtr := recv.Type().Underlying().(*types.Pointer); isPtr {
 							findings = append(findings, detFinding{short, "writes through its receiver (state in process memory)"})
 						}
+					} else if _, isG := root.(*ssa.Global); !isG && fn.Name() != "init" {
+						if where := processMemory(fn, recv, in.Addr, true); where != "" {
+							findings = append(findings, detFinding{short, "writes " + where + " (state in process memory)"})
+						}
+					}
+				case *ssa.MapUpdate:
+					if where := processMemory(fn, recv, in.Map, false); where != "" && fn.Name() != "init" {
+						findings = append(findings, detFinding{short, "updates a map in " + where + " (state in process memory)"})
 					}
 				case *ssa.Range:
 					if _, isMap := in.X.Type().Underlying().(*types.Map); isMap {
@@ -172,6 +241,15 @@ func determinismCheck(p *Program, cfg *PropCfg, steps map[string]*ssa.Function) 
 					continue
 				}
 				cn := callee.String()
+				if callee.Pkg != nil && (callee.Pkg.Pkg.Path() == "sync" || callee.Pkg.Pkg.Path() == "sync/atomic") {
+					// shared mutable memory (sync.Map, mutex-guarded caches, atomics): state outside the store
+					key := short + " -> " + cn
+					if why, ok := dc.AllowCalls[key]; ok {
+						listed[key] = why
+					} else {
+						findings = append(findings, detFinding{short, "uses " + cn + " (shared process memory: results may depend on what the process did before)"})
+					}
+				}
 				for _, nd := range nondetCallees {
 					if cn == nd || strings.HasSuffix(nd, ".") && strings.HasPrefix(cn, nd) {
 						key := short + " -> " + cn
